@@ -16,6 +16,7 @@
 From Coq Require Import List NArith Bool.
 From Connect Require Import Bytes Generated Pool.
 From Connect Require Duplex.
+From Connect Require CPool.
 Import ListNotations.
 
 (* For every disciplined program, every initial content of every buffer and
@@ -60,3 +61,13 @@ Theorem duplex_shared_state_synchronised :
   duplex_goroutine_started_through_once = true.
 Proof. exact Duplex.source_synchronisation_facts. Qed.
 Print Assumptions duplex_shared_state_synchronised.
+
+(* pooled compressors / decompressors (the other shared pool): under every
+   interleaving no pooled object is held by two calls at once; the per-branch
+   release discipline is in Props/C08.v *)
+Theorem pooled_codecs_never_shared : forall ss,
+  let p := CPool.pool_run CPool.pinit ss in
+  NoDup (map snd (CPool.held p)) /\ NoDup (CPool.avail p) /\
+  (forall c i, In (c, i) (CPool.held p) -> ~ In i (CPool.avail p)).
+Proof. exact CPool.no_sharing_lemma. Qed.
+Print Assumptions pooled_codecs_never_shared.
